@@ -277,6 +277,56 @@ class CropMachine:
 # ------------------------------------------------------------------- C04
 
 
+def concurrent_grow(m):
+    """'Parallel growing': 2-3 worker processes, each doing one tape-chosen grow
+    call (distinct batches, overlapping ones, the same batch twice, grow_missing),
+    their file operations interleaved by the seeded scheduler.  No worker may fail.
+    Returns the set of batch ids that are certainly grown afterwards."""
+    from xyzpy.gen.cropping import grow as xgrow
+    from ..sched import Scheduler
+
+    t = m.tape
+    allids = list(range(1, m.B + 1))
+    plans = []
+    for _ in range(t.int_between(2, 3, "par-growers")):
+        how = t.weighted([("crop_grow", 3), ("grow_fn", 2), ("grow_missing", 1)], "par-how")
+        if how == "grow_fn":
+            ids = [t.pick(allids, "par-id")]
+        elif how == "crop_grow":
+            ids = t.perm(allids, "par-ids")[: t.int_between(1, min(m.B, 3), "par-n")]
+        else:
+            ids = None
+        plans.append((how, ids))
+    policy = t.pick(["uniform", "pct", "conflict"], "par-policy")
+    m.ctx.t("concurrent grow", plans, policy)
+    sched = Scheduler(m.w, policy=policy)
+    actors = []
+    for gi, (how, ids) in enumerate(plans):
+        def f(how=how, ids=ids):
+            c = m.load_crop()
+            if how == "grow_fn":
+                xgrow(ids[0], c, verbosity=0)
+            elif how == "crop_grow":
+                c.grow(tuple(ids))
+            else:
+                c.grow_missing()
+
+        actors.append(sched.spawn("grower-par{}".format(gi + 1), f))
+    sched.run()
+    if m.w.aborting:
+        raise HarnessError("concurrent grow hit the step cap")
+    m.ctx.stats["concurrent-grow-phases"] += 1
+    m.ctx.stats["concurrent-grow-switches"] += sched.switches
+    for a in actors:
+        if a.exc is not None:
+            raise Violation("concurrent-grower-raised", "{} of {} raised {}: {}".format(
+                a.name, plans, type(a.exc).__name__, short(str(a.exc), 200)), site=xyz_site(a.exc))
+    if any(how == "grow_missing" for how, _ in plans):
+        # whatever it found unfinished when it looked it grew itself
+        return set(allids)
+    return set(i for _, ids in plans for i in ids)
+
+
 def run_c04(ctx):
     """sow / grow (any order, grouping, repetition, parallel) / reap == direct"""
     deep = ctx.params.get("tier") == "thorough"
@@ -299,6 +349,12 @@ def run_c04(ctx):
         # 0 = stop generating
         if not t.flag(5, 6, "more-grows") or (not missing and not t.flag(1, 3, "regrow")):
             break
+        if t.flag(1, 6, "concurrent-grow"):
+            done = concurrent_grow(m)
+            nops += 1
+            regrown += len(done & grown)
+            grown |= done
+            continue
         how, ids, _ = m.grow_op()
         nops += 1
         if ids is None:
